@@ -69,6 +69,16 @@ def gen_case(rng, tier, avoid):
             ops = [x for x in ops if x.get('kind') != 'origin'] + o
         elif order == 'shuffle':
             ops = ops[:1] + gen.toposhuffle(rng, ops[1:])
+        if rng.random() < 0.2 and 'ghost_object' not in avoid:
+            # a call the library rejects, made on this logical file while the others are being built: it concerns nobody else
+            from . import c20
+            sb = c20.schema_bad(rng, lfi, li)
+            if sb:
+                bop = dict(sb[0], h='L%d_bad' % li, c=li)
+                if naming != 'default':
+                    bop['kwargs'] = dict(bop['kwargs'], set_name='S%d' % li)
+                ops = list(ops)
+                ops.insert(rng.randint(2, len(ops)), bop)
         progs.append(ops)
     hist, sched = list(head), []
     idx = [0] * n_lf
